@@ -88,7 +88,7 @@ func genC10(seed int64, tier string) *Scenario {
 		}
 		wantWriter := (i == k-1 && writers == 0) || r.Intn(5) < 2
 		if !wantWriter {
-			m := []string{"hover", "definition", "references", "rename", "documentSymbol", "workspaceSymbol", "completion", "highlight", "varColor", "hover", "references", "completion", "signatureHelp"}[r.Intn(13)]
+			m := []string{"hover", "definition", "references", "rename", "documentSymbol", "workspaceSymbol", "completion", "highlight", "varColor", "hover", "references", "completion", "signatureHelp", "documentColor"}[r.Intn(14)]
 			if lastReader != "" && r.Intn(4) == 0 {
 				m = lastReader // two requests of the same kind in flight (fast typing)
 			}
@@ -189,6 +189,21 @@ var raceFrameRe = regexp.MustCompile(`(?m)^  ([^\s(]+(?:\([^)]*\))?[^\s(]*)\(.*\
 type raceReport struct {
 	a, b string
 	text string
+	// mapConflict: both accesses are Go map operations and at least one writes — the pattern the Go
+	// runtime turns into "fatal error: concurrent map read and map write" when it really overlaps
+	mapConflict bool
+}
+
+var raceFirstFrameRe = regexp.MustCompile(`(?m)\A[^\n]*\n  (\S+)\(`)
+
+func isMapAccess(stack string) bool {
+	m := raceFirstFrameRe.FindStringSubmatch(stack)
+	return m != nil && (strings.HasPrefix(m[1], "runtime.map") || strings.HasPrefix(m[1], "internal/runtime/maps."))
+}
+
+func isWriteAccess(stack string) bool {
+	h := strings.ToLower(firstLine(stack))
+	return strings.HasPrefix(h, "write at") || strings.HasPrefix(h, "previous write at")
 }
 
 // newRaceReports parses the reports the race detector appended to its log since the last call.
@@ -241,7 +256,7 @@ func newRaceReports() []raceReport {
 		if b < a {
 			a, b = b, a
 		}
-		out = append(out, raceReport{a, b, clip(rep, 3500)})
+		out = append(out, raceReport{a, b, clip(rep, 3500), isMapAccess(s1) && isMapAccess(s2) && (isWriteAccess(s1) || isWriteAccess(s2))})
 	}
 	return out
 }
@@ -295,27 +310,108 @@ func permutations(n int) [][]int {
 	return res
 }
 
-// burstUnits groups the burst ops into units that must stay together (a world write and the
-// delivery of its event).
-func burstUnits(ops []Op) [][]int {
-	var units [][]int
-	for i := 0; i < len(ops); i++ {
-		if ops[i].Kind == "fswrite" || ops[i].Kind == "fsremove" {
-			u := []int{i}
-			for i+1 < len(ops) && ops[i+1].Kind != "deliver" && (ops[i+1].Kind == "fswrite" || ops[i+1].Kind == "fsremove") {
-				i++
-				u = append(u, i)
+// burstItem is one step of a sequential reference execution of the burst: a message, or a disk
+// write taken apart from the message that reports it.
+type burstItem struct {
+	op   Op
+	orig int // index into sc.Ops of the op whose answer this item produces (-1: none)
+	// after lists items (indexes into the item list) that must come first
+	after []int
+}
+
+// burstItems expands the burst into items with ordering constraints.  The client's disk writes
+// (the write of a save, a world write) happen when the client performs them, which may be long
+// before the server handles the message that reports them and even before it handles earlier
+// messages; a sequential explanation may therefore place a write anywhere before its report.
+// Writes keep their order among themselves (they are performed by one client, in order).
+func burstItems(ops []Op, from int, saveTexts map[int]string) []burstItem {
+	var items []burstItem
+	lastWrite := -1
+	var pendingWrites []int
+	for i, o := range ops {
+		switch o.Kind {
+		case "save":
+			text, ok := saveTexts[from+i]
+			if !ok {
+				items = append(items, burstItem{op: o, orig: from + i}) // skipped by the client model
+				continue
 			}
-			if i+1 < len(ops) && ops[i+1].Kind == "deliver" {
-				i++
-				u = append(u, i)
+			w := burstItem{op: Op{Kind: "fswrite", Path: o.Path, Data: Bytes(text), NoEvt: o.NoEvt}, orig: -1}
+			if lastWrite >= 0 {
+				w.after = append(w.after, lastWrite)
 			}
-			units = append(units, u)
-			continue
+			items = append(items, w)
+			lastWrite = len(items) - 1
+			if !o.NoEvt {
+				pendingWrites = append(pendingWrites, lastWrite)
+			}
+			n := o
+			n.NoWrite = true
+			t := text
+			n.Text = &t
+			items = append(items, burstItem{op: n, orig: from + i, after: []int{lastWrite}})
+		case "fswrite", "fsremove":
+			w := burstItem{op: o, orig: -1}
+			if lastWrite >= 0 {
+				w.after = append(w.after, lastWrite)
+			}
+			items = append(items, w)
+			lastWrite = len(items) - 1
+			if !o.NoEvt {
+				pendingWrites = append(pendingWrites, lastWrite)
+			}
+		case "deliver":
+			items = append(items, burstItem{op: o, orig: from + i, after: append([]int(nil), pendingWrites...)})
+			pendingWrites = nil
+		default:
+			items = append(items, burstItem{op: o, orig: from + i})
 		}
-		units = append(units, []int{i})
 	}
-	return units
+	return items
+}
+
+// linearExtensions enumerates the orders of the items that respect the constraints, up to limit.
+func linearExtensions(items []burstItem, limit int) (orders [][]int, complete bool) {
+	n := len(items)
+	used := make([]bool, n)
+	cur := make([]int, 0, n)
+	complete = true
+	var rec func()
+	rec = func() {
+		if !complete {
+			return
+		}
+		if len(cur) == n {
+			if len(orders) >= limit {
+				complete = false
+				return
+			}
+			orders = append(orders, append([]int(nil), cur...))
+			return
+		}
+		for i := 0; i < n; i++ {
+			if used[i] {
+				continue
+			}
+			ok := true
+			for _, a := range items[i].after {
+				if !used[a] {
+					ok = false
+					break
+				}
+			}
+			if !ok {
+				continue
+			}
+			used[i] = true
+			cur = append(cur, i)
+			rec()
+			cur = cur[:len(cur)-1]
+			used[i] = false
+		}
+	}
+	rec()
+	return
 }
 
 func checkC10(t *testing.T, sc *Scenario) *Verdict {
@@ -348,10 +444,18 @@ func checkC10(t *testing.T, sc *Scenario) *Verdict {
 	overlap := conc.Stats.Probes["lock.contended"] > 0 || maxParked(conc) >= 2
 	_ = overlap
 
-	// sequential references: every order of the burst units, each message run to completion
-	units := burstUnits(sc.Ops[from:to])
-	if len(units) > 5 {
-		v.Invalid = true
+	// sequential references: every order of the burst's messages, each run to completion, with the
+	// client's disk writes placed anywhere before the message that reports them
+	items := burstItems(sc.Ops[from:to], from, conc.SaveTexts)
+	msgs := 0
+	for _, it := range items {
+		if it.orig >= 0 {
+			msgs++
+		}
+	}
+	orders, complete := linearExtensions(items, 720)
+	if msgs > 5 || !complete {
+		v.Invalid = true // too many orders to enumerate: no verdict rather than an incomplete reference set
 		return v
 	}
 	seqCfg := sc.Sched
@@ -363,17 +467,16 @@ func checkC10(t *testing.T, sc *Scenario) *Verdict {
 		answers map[int]string // scenario op index -> answer
 	}
 	var refs []ref
-	for _, perm := range permutations(len(units)) {
+	delta := len(items) - (to - from)
+	for _, perm := range orders {
 		s2 := sc.Clone()
 		var burst []Op
 		var origIdx []int
-		for _, ui := range perm {
-			for _, oi := range units[ui] {
-				o := sc.Ops[from+oi]
-				o.Async = false
-				burst = append(burst, o)
-				origIdx = append(origIdx, from+oi)
-			}
+		for _, ii := range perm {
+			o := items[ii].op
+			o.Async = false
+			burst = append(burst, o)
+			origIdx = append(origIdx, items[ii].orig)
 		}
 		s2.Ops = append(append(append([]Op{}, sc.Ops[:from]...), burst...), sc.Ops[to:]...)
 		res := Run(t, s2, seqCfg, Hooks{})
@@ -385,12 +488,21 @@ func checkC10(t *testing.T, sc *Scenario) *Verdict {
 		rf := ref{order: perm, answers: map[int]string{}}
 		for _, a := range res.Answers {
 			idx := a.Op
-			if idx >= from && idx < from+len(burst) {
+			switch {
+			case idx >= from && idx < from+len(burst):
 				idx = origIdx[idx-from]
+			case idx >= from+len(burst):
+				idx -= delta
 			}
 			rf.answers[idx] = a.Result + "|" + a.Err
 		}
 		refs = append(refs, rf)
+		if f := os.Getenv("VERIF_DEBUG_C10"); f != "" {
+			if fh, err := os.OpenFile(f, os.O_APPEND|os.O_CREATE|os.O_WRONLY, 0644); err == nil {
+				fmt.Fprintf(fh, "order %v: %v\n", perm, rf.answers)
+				fh.Close()
+			}
+		}
 	}
 	newRaceReports() // sequential runs cannot race; drop duplicates of suppressed reports
 	if len(refs) == 0 {
